@@ -55,10 +55,20 @@ def generate(rng, tier):
             ops.append({"op": "postpone", "k": rng.randint(1, 2)})
         elif r < 0.5:
             ops.append({"op": "sleep", "d": rng.choice(DELAYS)})
-        for _ in range(rng.randint(1, 3)):
+        for j in range(rng.randint(1, 3)):
             index = rng.randrange(n_locks)
-            ops.append({"op": "lock", "on": "L%d" % index,
-                        "body": _hold(rng, index, n_locks, 1)})
+            block = {"op": "lock", "on": "L%d" % index, "body": _hold(rng, index, n_locks, 1)}
+            r = rng.random()
+            if r < 0.2:
+                # the block is left by an ordinary exception of its body (handled outside)
+                block["body"].append({"op": "raise", "type": rng.choice(["E", "K", "Z"])})
+                block = {"op": "try", "body": [block], "handler": []}
+            elif r < 0.45:
+                # a patient contender: gives up after a while (waiting, designated or inside) and
+                # carries on - it asks again later, as a new contender at the end of the line
+                block = {"op": "scope", "label": "T%d_%d" % (i, j), "children": [],
+                         "until": {"k": "delay", "d": rng.choice(DELAYS)}, "body": [block]}
+            ops.append(block)
             r = rng.random()
             if r < 0.25:
                 ops.append({"op": "postpone", "k": 1})
@@ -168,7 +178,9 @@ def check(rec):
                 st["waiting"].remove(actor)
             elif st["holder"] == actor and st["depth"] == 0:
                 pass_on()             # designated owner torn down before its turn
-            if not excused(actor, tick):
+            timeout = ev[6] is not None and ev[6][0] == "CancelScope" and \
+                str(ev[6][1]).startswith("scope:T")       # the contender's own patience ran out
+            if not excused(actor, tick) and not timeout:
                 bad("abort-without-fault", "%s failed to acquire %s: %r" % (actor, name, ev[6]))
         elif kind == "lock.avail":
             in_flight = any(excused(w, tick) for w in st["waiting"]) or \
